@@ -244,6 +244,10 @@ def after_growth(d, route, seed, pt):
     d2 = grown(d, seed)
     e = d2["events"][-1]
     m.add_event(pg.Event(rate=e["rate"], transition_list=[pg.Transition(origin=d["states"][0], transition_type="D", magnitude="2")]))
+    if seed % 16 == 0:
+        # the plain right-hand side is looked at first (its recompile flag is cleared), the derivative getters afterwards
+        m.parameters = {p: float(pt[p]) for p in d["params"]}
+        m.ode(np.array([float(pt[s]) for s in d["states"]]), float(pt["t"]))
     f = compare(d2, list(order) + [len(d["events"])], pyg_derivs(m, pt, reverse=bool(seed % 8 == 0)), pt, m)
     return ("after-add_event/" + f[0], "after a process was added to the live model: " + f[1]) if f else None
 
